@@ -155,6 +155,22 @@ def oracle(abbr, cfg, meta, r):
                 k += 1
             return 'lines differ from the denoted lines at line %d: got %r, denoted %r (of %d/%d lines)' % (
                 k, got[k] if k < len(got) else None, exp[k] if k < len(exp) else None, len(got), len(exp))
+    if meta and meta.get('elem_depths') is not None and indent:
+        # abbreviations with text-only nodes (whose own layout the statement does not define): every ELEMENT still
+        # stands on its own line at its depth in the tree
+        pre = '%' if syntax == 'haml' else ''
+        got = []
+        for line in out.split('\n'):
+            d = 0
+            while line.startswith(indent):
+                line = line[len(indent):]
+                d += 1
+            for nm in ELEM_VOCAB:
+                if line.startswith(pre + nm) and (len(line) == len(pre + nm) or not (line[len(pre + nm)].isalnum() or line[len(pre + nm)] in '-_:')):
+                    got.append((d, nm))
+                    break
+        if got != [tuple(x) for x in meta['elem_depths']]:
+            return 'element lines (depth, name) %r differ from the tree %r' % (got, meta['elem_depths'])
     if meta and meta.get('tree') and indent:
         tree, err = recover_tree(out, syntax, indent)
         if err:
@@ -238,7 +254,7 @@ TEXT_REST = TEXT_FIRST + '      ,;:!?-_()\'"@&*+=/~[].#%'
 VAL_UNQ = 'abcxyz019-_'
 VAL_Q = VAL_UNQ + '   .:/,;é'
 IDENT = ['a', 'b1', 'main', 'x-y', 'item', 'c_d', 'Q', 'nav2', 'z9-']
-ATTR_NAMES = ['title', 'data-x', 'href', 'for', 'role', 'x:y', 'aria-label', 'T']
+ATTR_NAMES = ['title', 'data-x', 'href', 'for', 'role', 'x:y', 'aria-label', 'T', 'd', 's', 'a', 'i', 'c', 'as', 'l', 'si', 'classes', 'ids']
 
 
 def rand_word(rng, first, rest, lo, hi):
@@ -383,6 +399,17 @@ def load_corpus():
     return out
 
 
+ELEM_VOCAB = ['section', 'div', 'ul', 'li', 'em', 'p', 'i']
+TEXT_NODE_CASES = [
+    ('div>{a\nb}+p>i', [(0, 'div'), (1, 'p'), (2, 'i')]),
+    ('{a\nb}+ul>li', [(0, 'ul'), (1, 'li')]),
+    ('div>{a\nb}+ul>li*2', [(0, 'div'), (1, 'ul'), (2, 'li'), (2, 'li')]),
+    ('section>p>{x\ny\nz}+em^div>i', [(0, 'section'), (1, 'p'), (2, 'em'), (1, 'div'), (2, 'i')]),
+    ('ul>li>{a\nb}^li>{c\nd}+p', [(0, 'ul'), (1, 'li'), (1, 'li'), (2, 'p')]),
+    ('{a\nb}+{c\nd}+div>p', [(0, 'div'), (1, 'p')]),
+]
+
+
 def gen(ctx):
     names = g.safe_names()
     g.load_inline()
@@ -448,6 +475,12 @@ def gen(ctx):
         for nm in ('p', 'div', 'custom'):
             add([(g.El(name=nm, self_close=True), '+'), (g.El(name='ul'), '>'), (g.El(name=nm, self_close=True, classes=['k']), '+'),
                  (g.El(name=None, classes=['x']), '')], syntax, '\t', 'self-close')
+    # 3b. text-only nodes with several lines between elements: the elements keep their lines and depths
+    for abbr, depths in TEXT_NODE_CASES:
+        for syntax in SYNTAXES:
+            for ind in ('\t', '  '):
+                cases.append((abbr, cfg_of(syntax, ind), {'lines': None, 'tree': False, 'elem_depths': depths}))
+                ctx.cover('gen:text-node-between-elements')
     # 4. random statements: wide and deep, groups, repeaters
     n_rand = 2500 if ctx.tier == 'quick' else 40000
     for _ in range(n_rand):
